@@ -45,6 +45,12 @@ def member_key(f):
         return ("__init__", "f")
     if k == "new":
         return ("__new__", "f")
+    if k == "repr":
+        return ("__repr__", "f")
+    if k == "pysetattr":
+        return ("__setattr__", "f")
+    if k == "getattribute":
+        return ("__getattribute__", "f")
     return (f["name"], "f")
 
 
@@ -465,8 +471,17 @@ class Ref:
         if t == "new":
             ci = op["cls"]
             k = op["k"]
+            prev = self.inst.get(k)
             self.inst[k] = ci
-            return self.construct(ci, k, op)
+            try:
+                return self.construct(ci, k, op)
+            except Outcome:
+                # `o = K()` raising leaves the variable bound to what it was before
+                if prev is None:
+                    self.inst.pop(k, None)
+                else:
+                    self.inst[k] = prev
+                raise
         if t in ("call", "get", "set", "del"):
             k = op["k"]
             ci = self.inst[k]
@@ -506,15 +521,25 @@ class Ref:
             k = op["k"]
             ci = self.inst[k]
             sel = self.selected(ci, "SETATTR")
+            py = m.eff(ci, ("__setattr__", "f"))
+
+            def assign():
+                if py is not None:
+                    self.ev(("body", self.qual(py["owner"], py["func"]), {"self": "self"}))
+                return "NoneType"
+
             if sel:
-                return self.inv_wrapped(k, sel, lambda: "NoneType")
-            return "NoneType"
+                return self.inv_wrapped(k, sel, assign)
+            return assign()
         if t == "repr":
             return "str"
+        if t == "read":
+            return "int"
         raise RefInconsistency("unknown op %r" % (op,))
 
     def qual(self, owner, f):
-        name = {"init": "__init__", "new": "__new__"}.get(f["kind"], f["name"])
+        name = {"init": "__init__", "new": "__new__", "repr": "__repr__", "pysetattr": "__setattr__",
+                "getattribute": "__getattribute__"}.get(f["kind"], f["name"])
         return "%s.%s%s" % (self.m.classes[owner]["name"], name,
                             {"setter": ".set", "deleter": ".del"}.get(f["kind"], ""))
 
@@ -580,12 +605,12 @@ class Ref:
             sup = f.get("super", "absent")
             if sup == "first":
                 self.super_init(owner, k)
+            py = m.eff(self.inst[k], ("__setattr__", "f"))
+            if py is not None:  # rendered constructors assign self.plain before logging their body
+                self.ev(("body", self.qual(py["owner"], py["func"]), {"self": "self"}))
             self.body(qual, f, benv)
             for s in f.get("ctor_calls", []):
-                try:
-                    self._do({"op": "call", "k": k, "m": s, "args": {}})
-                except Outcome:
-                    raise
+                self._do({"op": "call", "k": k, "m": s, "args": {"x": "NoneType"}})
             if sup == "last":
                 self.super_init(owner, k)
             return "NoneType"
@@ -647,6 +672,4 @@ def run_ops(model, ops, truth, **kw):
             outs.append(("ret", res, mark))
         except Outcome as o:
             outs.append(("exc", o.what, mark))
-            if op["op"] == "new":
-                r.inst.pop(op["k"], None)
     return r.log, outs, r
